@@ -211,7 +211,7 @@ class PubSubManager(Manager):
                                 data = json.loads(message)
                             except:
                                 pass
-                    if data and 'method' in data:
+                    if isinstance(data, dict) and 'method' in data:
                         self._get_logger().debug('pubsub message: {}'.format(
                             data['method']))
                         try:
